@@ -82,10 +82,11 @@ PROPS = {
  ),
  "C18": dict(
     level="proof",
-    claim="Proof that isequal on fixed-length index arrays is exactly the conjunction of element equalities (both argument orders), that index arrays of different run-time length and ndarrays of different dimension or shape compare false (isequal and isclose), the optional/either/scalar/tuple case tables, and isclose on scalars = |a-b|<eps; element-wise comparison of equal-shape run-time ndarrays is not decided.",
-    note=E1_NOTE,
-    technique=E1_TECH,
+    claim="Proof that isequal on fixed-length index arrays is exactly the conjunction of element equalities (both argument orders), that index arrays of different run-time length and ndarrays of different dimension or shape compare false (isequal and isclose), the optional/either/scalar/tuple case tables, and isclose on scalars = |a-b|<eps; for run-time-length shapes (vector, static_vector, mixed) the CFG rule R-EQSHAPE requires the element loop of every instantiation to be entered only past run-time dimension and shape tests that return false; element-wise comparison of equal-shape run-time ndarrays is not decided.",
+    note=E1_NOTE + " " + E2_NOTE,
+    technique=E1_TECH + " + CFG dominance rule (shape test before element loop) on instantiations",
     e1=[dict(tu="c18_isequal.cpp")],
+    e2=[dict(rule="R-EQSHAPE")],
     e3=[dict(group="C18")],
     rule=E1_RULE,
     explanation="every case of the property's case table is an obligation with the call under test inside the case.",
